@@ -83,8 +83,8 @@ CLAIMS = {
             TECH_V + " + lemma", "§3 C15"),
     "C16": ("proof",
             "Time-agnostic and simple matrix providers return exactly the row-major entry of the profile's matrix, durations multiplied (same f64 operation) by profile.scale, distances unscaled, fallback exactly when absent - "
-            "Verus, any matrix size and profile count; time-dependent look-ups (value at a matrix timestamp, first/last outside the span, linear interpolation / left value in between) on a provider state built directly (Kani, bounded <= 3 matrices).",
-            "Floats uninterpreted in the Verus unit (operation identity, not numerics); TimeAwareMatrixTransportCost::new (does not finish in CBMC: seeded change C16 is missed), the other constructors' rejections, fleet_reader, haversine are NOT under contract.",
+            "Verus, any matrix size and profile count; time-dependent look-ups (value at a matrix timestamp, first/last outside the span, linear interpolation / left value in between) on a provider state built directly (Kani, bounded <= 3 matrices, U16b); TimeAwareMatrixTransportCost::new establishes that state - matrices in chronological order, timestamp list in the same order - whatever the supply order, and rejects missing timestamps / single-matrix profiles (Kani, bounded: 2 matrices, U16c).",
+            "Floats uninterpreted in the Verus unit (operation identity, not numerics); the time-aware constructor only for 2 matrices over a MatrixData stub without the value vectors; the other constructors' rejections, fleet_reader, haversine are NOT under contract.",
             TECH_V, "§3 C16"),
     "C18": ("proof",
             "SlotMachine: one-step contract from any state in the invariant box (shape +1/2 and positive, rate non-decreasing positive finite, variance finite >= 0, mean within hull of old mean and reward up to one ulp, "
